@@ -79,7 +79,7 @@ impl SBloom {
 impl Sut for SBloom {
     fn reclone_via_clone_from(&mut self) {
         let other = BfCfg::new(self.cfg.m + 5, self.cfg.k + 1, (0..=self.cfg.k as u64).collect(), false);
-        let mut tmp = other.fresh();
+        let mut tmp = if self.any { other.fresh() } else { pdatastructs::filters::bloomfilter::BloomFilter::with_params_and_hash(self.cfg.m + 3, self.cfg.k + 2, self.f.buildhasher().clone()) };
         tmp.insert(&Key(0)).unwrap();
         tmp.clone_from(&self.f);
         self.f = tmp;
@@ -145,9 +145,10 @@ impl SCuckoo {
 impl Sut for SCuckoo {
     fn reclone_via_clone_from(&mut self) {
         let other = CfCfg::new(3, 4, 3, vec![1, 2, 5], vec![1, 0, 2], self.cfg.budget, 3, false);
-        let mut tmp = other.fresh();
+        // odd fill levels: another shape with the SAME hasher
+        let mut tmp = if self.stored % 2 == 0 { other.fresh() } else { pdatastructs::filters::cuckoofilter::CuckooFilter::with_params_and_hash(ChoiceRng, 3, 4, 2, self.cfg.hasher()) };
         chooser::begin(&[], Tail::Zero);
-        let _ = tmp.insert(&other.key_of(1));
+        let _ = tmp.insert(&self.cfg.key_of(1));
         chooser::end();
         tmp.clone_from(&self.f);
         self.f = tmp;
@@ -310,8 +311,10 @@ where
     C: Clone + Ord + pdatastructs::num_traits::Unsigned + pdatastructs::num_traits::CheckedAdd + pdatastructs::num_traits::Zero + pdatastructs::num_traits::One + pdatastructs::num_traits::FromPrimitive + pdatastructs::num_traits::ToPrimitive + Send + Sync,
 {
     fn reclone_via_clone_from(&mut self) {
+        // two kinds of target, chosen by the state (deterministic): another shape with ANOTHER hasher, or another shape with
+        // the SAME hasher (a clone_from that re-derives hash state only "when the hashers differ" is wrong for the latter)
         let other = CmsCfg::new(self.cfg.w + 1, self.cfg.d + 1, (0..=self.cfg.d as u64).collect());
-        let mut tmp = other.fresh::<C>();
+        let mut tmp = if self.total % 2 == 0 { other.fresh::<C>() } else { CountMinSketch::with_params_and_hasher(self.cfg.w + 2, self.cfg.d + 1, self.s.buildhasher().clone()) };
         tmp.add(&Key(other.universe[0]));
         tmp.clone_from(&self.s);
         self.s = tmp;
